@@ -63,26 +63,44 @@ class FS:
 
 
 class Interp:
-    def __init__(self, fn: ast.FunctionDef, module, flags: Dict[str, object]):
+    """abstract interpreter of a function body over the file typestate.
+
+    mode 'writer': the first parameter of `fn` is the checkpoint path (key '').
+    mode 'caller': `self.<a>` for a in root_attrs is the checkpoint path; calls to the writer
+    function are inlined (depth 1) with their path argument and constant flags bound."""
+
+    def __init__(self, fn: ast.FunctionDef, module, flags: Dict[str, object], root_attrs=(), writer=None, path_binding=None):
         self.fn = fn
         self.module = module
         self.flags = flags  # param name -> True/False/None(unknown)
+        self.root_attrs = set(root_attrs)
+        self.writer = writer  # (module, FunctionDef) to inline in caller mode
         args = fn.args.args
-        if not args:
-            raise Unsupported(fn, 'writer has no path parameter')
-        self.path_param = args[0].arg
+        self.path_param = None
+        if not self.root_attrs and path_binding is None:
+            if not args:
+                raise Unsupported(fn, 'writer has no path parameter')
+            self.path_param = args[0].arg
+        self.path_binding = path_binding or {}
         self.visited: Dict[FS, Tuple[str, int]] = {}  # crash states -> (effect text, line)
-        self.trace: List = []
         self.effects_seen: Set[str] = set()
+        self.tmp_count = 0
 
     # ---- path expressions -------------------------------------------
     def path_key(self, e: ast.AST, env) -> str:
         if isinstance(e, ast.Name):
             if e.id == self.path_param:
                 return ''
-            if e.id in env:
+            if e.id in self.path_binding:
+                return self.path_binding[e.id]
+            if e.id in env and isinstance(env[e.id], str):
                 return env[e.id]
             raise Unsupported(e, f"path variable {e.id} not understood")
+        if isinstance(e, ast.Attribute):
+            if isinstance(e.value, ast.Name) and e.value.id == 'self' and e.attr in self.root_attrs:
+                return ''
+            if e.attr == 'name' and isinstance(e.value, ast.Name) and ('@' + e.value.id) in env:
+                return env['@' + e.value.id]  # fp.name of `with open(X) as fp`
         if isinstance(e, ast.BinOp) and isinstance(e.op, ast.Add):
             if isinstance(e.right, ast.Constant) and isinstance(e.right.value, str):
                 return self.path_key(e.left, env) + e.right.value
@@ -99,7 +117,7 @@ class Interp:
             if key is None:
                 raise Unsupported(e, 'constant path')
             return key + out
-        if isinstance(e, ast.Call) and dotted_name(e.func) in ('str', 'os.fspath') and e.args:
+        if isinstance(e, ast.Call) and dotted_name(e.func) in ('str', 'os.fspath', 'os.path.abspath', 'pathlib.Path', 'Path') and e.args:
             return self.path_key(e.args[0], env)
         raise Unsupported(e, f"path expression {ast.unparse(e)} not understood")
 
@@ -139,10 +157,18 @@ class Interp:
         if fs not in self.visited:
             self.visited[fs] = (what, getattr(stmt, 'lineno', 0))
 
+    def _is_writer_call(self, n) -> bool:
+        if self.writer is None or not isinstance(n, ast.Call):
+            return False
+        dn = dotted_name(n.func) or ''
+        return dn.split('.')[-1] == self.writer[1].name
+
     def _has_fs_call(self, node) -> bool:
         for n in ast.walk(node):
             if isinstance(n, ast.Call):
                 dn = dotted_name(n.func) or ''
+                if self._is_writer_call(n):
+                    return True
                 if dn == 'open' or dn.split('.')[0] in FS_MODULES and dn not in NOOP_CALLS and dn not in EXISTS_CALLS:
                     return True
                 if isinstance(n.func, ast.Attribute) and n.func.attr in (
@@ -173,6 +199,83 @@ class Interp:
                 returned |= t
             cur = nxt
         return cur, raised, returned
+
+    def fs_call(self, call: ast.Call, st, state):
+        """effect of one call expression; returns (normal, raised, returned) or None if no fs effect."""
+        fs, envt = state
+        env = dict(envt)
+        E: Set = set()
+        dn = dotted_name(call.func) or ''
+        if self._is_writer_call(call):
+            wmod, wfn = self.writer
+            params = [a.arg for a in wfn.args.args]
+            bound = bind_args(wfn, call)
+            dfl = defaults_of(wfn)
+            if params[0] not in bound:
+                raise Unsupported(call, 'writer called without a path')
+            key = self.path_key(bound[params[0]], env)
+            flags = {}
+            for p in params[2:] + [a.arg for a in wfn.args.kwonlyargs]:
+                ex = bound.get(p, dfl.get(p))
+                flags[p] = const_of(ex) if ex is not None else None
+            sub = Interp(wfn, wmod, flags, path_binding={params[0]: key})
+            sub.visited = self.visited
+            sub.effects_seen = self.effects_seen
+            n, r, t = sub.block(wfn.body, {(fs, ())})
+            self.effects_seen.add(f"{wfn.name}(name{key}, {', '.join(f'{k}={v}' for k, v in sorted(flags.items()))})")
+            back = lambda ss: {(f, envt) for f, _ in ss}
+            return back(n) | back(t), back(r), E
+        if dn in RENAME_CALLS and len(call.args) >= 2:
+            a = self.path_key(call.args[0], env)
+            b = self.path_key(call.args[1], env)
+            text = f"{dn}(name{a}, name{b})"
+            self.effects_seen.add(text)
+            if fs.get(a) == A:
+                return E, {state}, E  # FileNotFoundError, nothing changed
+            out = set()
+            # an open handle follows its file across a rename
+            env2 = {k: (b if (k.startswith('@') and v == a) else v) for k, v in env.items()}
+            envt = tuple(sorted(env2.items()))
+            if not (dn == 'shutil.move' and (a.startswith('<tmp') != b.startswith('<tmp'))):
+                nf = fs.set(b, fs.get(a)).set(a, A)  # atomic rename (trusted base)
+                self.visit(nf, st, text)
+                out.add((nf, envt))
+            if dn == 'shutil.move' and (a.startswith('<tmp') or b.startswith('<tmp')):
+                # the temporary directory may be on another file system: shutil.move falls back to copy + remove
+                mid = fs.set(b, P)
+                self.visit(mid, st, text + ' [cross-device: copy]')
+                done = fs.set(b, fs.get(a))
+                self.visit(done, st, text + ' [cross-device: copied]')
+                nf = done.set(a, A)
+                self.visit(nf, st, text + ' [cross-device: source removed]')
+                out.add((nf, envt))
+            return out, E, E
+        if dn in REMOVE_CALLS and call.args:
+            a = self.path_key(call.args[0], env)
+            text = f"{dn}(name{a})"
+            self.effects_seen.add(text)
+            if fs.get(a) == A:
+                return E, {state}, E
+            nf = fs.set(a, A)
+            self.visit(nf, st, text)
+            return {(nf, envt)}, E, E
+        if dn in ('shutil.copy', 'shutil.copyfile', 'shutil.copy2') and len(call.args) >= 2:
+            a = self.path_key(call.args[0], env)
+            b = self.path_key(call.args[1], env)
+            text = f"{dn}(name{a}, name{b})"
+            self.effects_seen.add(text)
+            if fs.get(a) == A:
+                return E, {state}, E
+            mid = fs.set(b, P)
+            self.visit(mid, st, text)
+            nf = fs.set(b, fs.get(a))
+            self.visit(nf, st, text)
+            return {(nf, envt)}, E, E
+        if dn in ('os.close', 'os.fsync', 'os.fdopen') or dn in NOOP_CALLS:
+            return {state}, E, E
+        if self._has_fs_call(call):
+            raise Unsupported(st, f"file-system call {ast.unparse(call.func)} not understood")
+        return None
 
     def stmt(self, st, state):
         fs, envt = state
@@ -213,39 +316,43 @@ class Interp:
                             # 'w' truncates: the file is partial from this instant until close
                             nf = f.set(key, P)
                             self.visit(nf, st, text)
-                            new.add((nf, e))
+                            e2 = dict(e)
+                            hname = '@' + (item.optional_vars.id if isinstance(item.optional_vars, ast.Name) else f"anon{st.lineno}")
+                            e2[hname] = key
+                            new.add((nf, tuple(sorted(e2.items()))))
                         cur = new
-                        opened.append(key)
+                        opened.append('@' + (item.optional_vars.id if isinstance(item.optional_vars, ast.Name) else f"anon{st.lineno}"))
                 elif self._has_fs_call(ce):
                     raise Unsupported(ce, 'context manager with file-system effect not understood')
             n, r, t = self.block(st.body, cur)
-            # leaving the block normally closes the files: complete
+
+            # leaving the block normally closes the files: whatever name the open file now has
+            # (it may have been renamed while open) becomes complete
             def close(states):
                 out = set()
                 for f, e in states:
-                    for key in opened:
-                        f = f.set(key, C)
+                    ed = dict(e)
+                    for h in opened:
+                        key = ed.pop(h, None)
+                        # the handle may have followed its file across a rename; a removed file stays absent
+                        if key is not None and f.get(key) == P:
+                            f = f.set(key, C)
                     self.visit(f, st, 'close')
-                    out.add((f, e))
+                    out.add((f, tuple(sorted(ed.items()))))
                 return out
-            # an exception inside the block leaves the file partial (closed but incomplete)
             return close(n), r, close(t)
         if isinstance(st, ast.Try):
             n, r, t = self.block(st.body, {state})
             handled: Set = set()
             if st.handlers:
-                # file-system errors (the only ones we model) are OSError subclasses
                 ok_types = {'OSError', 'FileNotFoundError', 'Exception', 'BaseException', 'IOError', 'FileExistsError'}
-                catches = False
                 for h in st.handlers:
-                    names = []
+                    catches = False
                     if h.type is None:
                         catches = True
                     else:
-                        for x in (h.type.elts if isinstance(h.type, ast.Tuple) else [h.type]):
-                            names.append((dotted_name(x) or '').split('.')[-1])
-                        if any(nm in ok_types for nm in names):
-                            catches = True
+                        names = [(dotted_name(x) or '').split('.')[-1] for x in (h.type.elts if isinstance(h.type, ast.Tuple) else [h.type])]
+                        catches = any(nm in ok_types for nm in names)
                     if catches:
                         hn, hr, ht = self.block(h.body, r)
                         handled |= hn
@@ -269,64 +376,67 @@ class Interp:
             return E, E, {state}
         if isinstance(st, ast.Raise):
             return E, {state}, E
-        if isinstance(st, ast.Assign) and len(st.targets) == 1 and isinstance(st.targets[0], ast.Name):
-            if self.is_path_expr(st.value, env):
-                env[st.targets[0].id] = self.path_key(st.value, env)
-                return {(fs, tuple(sorted(env.items())))}, E, E
-            if self._has_fs_call(st.value):
-                raise Unsupported(st, 'assignment from a file-system call not understood')
+        if isinstance(st, ast.Assign) and len(st.targets) == 1:
+            tgt = st.targets[0]
+            v = st.value
+            vdn = dotted_name(v.func) if isinstance(v, ast.Call) else None
+            if vdn in ('tempfile.mkstemp', 'tempfile.mktemp') or (vdn or '').endswith('NamedTemporaryFile'):
+                key = f"<tmp@{st.lineno}>"  # one abstract temporary file per creation site (finite state space)
+                names = [e.id for e in (tgt.elts if isinstance(tgt, ast.Tuple) else [tgt]) if isinstance(e, ast.Name)]
+                for nm in names:
+                    env[nm] = key
+                nf = fs.set(key, C) if vdn == 'tempfile.mkstemp' else fs
+                return {(nf, tuple(sorted(env.items())))}, E, E
+            if isinstance(tgt, ast.Name):
+                if self.is_path_expr(v, env):
+                    env[tgt.id] = self.path_key(v, env)
+                    return {(fs, tuple(sorted(env.items())))}, E, E
+                if isinstance(v, ast.Call):
+                    res = self.fs_call(v, st, state)
+                    if res is not None:
+                        return res
+                if self._has_fs_call(v):
+                    raise Unsupported(st, 'assignment from a file-system call not understood')
+            elif self._has_fs_call(st):
+                raise Unsupported(st, 'assignment with file-system effect not understood')
             return {state}, E, E
         if isinstance(st, ast.Expr) and isinstance(st.value, ast.Call):
-            call = st.value
-            dn = dotted_name(call.func) or ''
-            if dn in RENAME_CALLS and len(call.args) >= 2:
-                a = self.path_key(call.args[0], env)
-                b = self.path_key(call.args[1], env)
-                text = f"{dn}(name{a}, name{b})"
-                self.effects_seen.add(text)
-                if fs.get(a) == A:
-                    return E, {state}, E  # FileNotFoundError, nothing changed
-                nf = fs.set(b, fs.get(a)).set(a, A)  # atomic (trusted base)
-                self.visit(nf, st, text)
-                return {(nf, envt)}, E, E
-            if dn in REMOVE_CALLS and call.args:
-                a = self.path_key(call.args[0], env)
-                text = f"{dn}(name{a})"
-                self.effects_seen.add(text)
-                if fs.get(a) == A:
-                    return E, {state}, E
-                nf = fs.set(a, A)
-                self.visit(nf, st, text)
-                return {(nf, envt)}, E, E
-            if dn in ('shutil.copy', 'shutil.copyfile', 'shutil.copy2') and len(call.args) >= 2:
-                a = self.path_key(call.args[0], env)
-                b = self.path_key(call.args[1], env)
-                text = f"{dn}(name{a}, name{b})"
-                self.effects_seen.add(text)
-                if fs.get(a) == A:
-                    return E, {state}, E
-                mid = fs.set(b, P)
-                self.visit(mid, st, text)
-                nf = fs.set(b, fs.get(a))
-                self.visit(nf, st, text)
-                return {(nf, envt)}, E, E
-            if self._has_fs_call(call):
-                raise Unsupported(st, f"file-system call {ast.unparse(call.func)} not understood")
+            res = self.fs_call(st.value, st, state)
+            if res is not None:
+                return res
             return {state}, E, E
         if isinstance(st, (ast.Pass, ast.Import, ast.ImportFrom, ast.Global, ast.Nonlocal, ast.Assert)):
             return {state}, E, E
+        if isinstance(st, ast.For) and isinstance(st.iter, (ast.Tuple, ast.List)) and isinstance(st.target, ast.Name) \
+                and all(self.is_path_expr(x, env) for x in st.iter.elts):
+            cur = {state}
+            raised: Set = set()
+            returned: Set = set()
+            for x in st.iter.elts:
+                nxt = set()
+                for f, e in cur:
+                    e2 = dict(e)
+                    e2[st.target.id] = self.path_key(x, dict(e))
+                    n, r, t = self.block(st.body, {(f, tuple(sorted(e2.items())))})
+                    nxt |= n
+                    raised |= r
+                    returned |= t
+                cur = nxt
+            return cur, raised, returned
         if isinstance(st, (ast.For, ast.While)):
             if self._has_fs_call(st):
-                raise Unsupported(st, 'loop with file-system effects not understood')
+                # body zero or one time; repetition is covered by the restart closure
+                n, r, t = self.block(st.body, {state})
+                return n | {state}, r, t
             return {state}, E, E
         if self._has_fs_call(st):
             raise Unsupported(st, 'statement with file-system effect not understood')
         return {state}, E, E
 
 
-def explore(fn, module, flags):
+def explore(fn, module, flags, **kw):
     """closure of {name=complete} under call + crash + restart."""
-    interp = Interp(fn, module, flags)
+    interp = Interp(fn, module, flags, **kw)
     init = FS({'': C}.items())
     seen: Set[FS] = set()
     work = [init]
@@ -337,6 +447,8 @@ def explore(fn, module, flags):
         if s in seen:
             continue
         seen.add(s)
+        if len(seen) > 5000:
+            raise Unsupported(fn, 'abstract state space exceeds 5000 states')
         interp.visited = {}
         interp.run(s)
         for s2, (what, line) in interp.visited.items():
@@ -455,8 +567,66 @@ def run(ctx, rep):
     sites = find_calls(ctx, WRITER, WRITER_FN)
     if not sites:
         raise AnalysisError("no call site of the checkpoint writer found")
-    combos: Dict[tuple, List[str]] = {}
+    # who may write the checkpoint file: an attribute that supplies the writer's path somewhere
+    # (self.checkpoint) must not be opened for writing directly anywhere in the package
+    attrs = set()
+
+    def self_attrs(e):
+        return {n.attr for n in ast.walk(e) if isinstance(n, ast.Attribute)
+                and isinstance(n.value, ast.Name) and n.value.id == 'self'}
+
     for m2, call in sites:
+        if not call.args:
+            continue
+        attrs |= self_attrs(call.args[0])
+        encl = enclosing_function(call)
+        cls = enclosing_class(call)
+        if isinstance(call.args[0], ast.Name) and encl is not None and cls is not None:
+            for node in ast.walk(cls):
+                if isinstance(node, ast.Call) and isinstance(node.func, ast.Attribute) and node.func.attr == encl.name:
+                    for a in node.args[:1]:
+                        attrs |= self_attrs(a)
+    if not attrs:
+        raise AnalysisError('no path attribute found at the writer call sites')
+    # callers that perform file-system operations of their own around the writer call are analysed as a
+    # whole (the writer is inlined): e.g. write to a temporary file, then move it onto the checkpoint
+    caller_sites = []
+    plain_sites = []
+    probe = Interp(fn, m, {})
+    for m2, call in sites:
+        encl = enclosing_function(call)
+        other = False
+        if encl is not None:
+            for n in ast.walk(encl):
+                if isinstance(n, ast.Call) and n is not call and not (dotted_name(n.func) or '').endswith(WRITER_FN):
+                    dn = dotted_name(n.func) or ''
+                    if dn.split('.')[0] in ('shutil', 'tempfile') or dn in RENAME_CALLS | REMOVE_CALLS or \
+                            (dn in ('open', 'io.open') and len(n.args) > 1 and isinstance(n.args[1], ast.Constant) and any(ch in str(n.args[1].value) for ch in 'wax+')):
+                        other = True
+        (caller_sites if other else plain_sites).append((m2, call))
+    for m2, call in caller_sites:
+        encl = enclosing_function(call)
+        cls = enclosing_class(call)
+        ckey = f"caller::{m2.name}.{cls.name + '.' if cls is not None else ''}{encl.name}"
+        try:
+            seen, origin, trans, interp = explore(encl, m2, {}, root_attrs=attrs, writer=(m, fn))
+        except Unsupported as u:
+            for r in ('C18.I1', 'C18.I2'):
+                rep.undecided(r, ckey, where(m2, u.node), str(u))
+            continue
+        facts = {'caller': ckey, 'states': len(seen), 'effects': sorted(interp.effects_seen), 'reachable': [s_.show() for s_ in sorted(seen, key=repr)][:30]}
+        bad1 = [s_ for s_ in seen if not any(s_.get(k) == C for k in SIBLINGS)]
+        bad2 = [s_ for s_ in seen if s_.get('') == P]
+        for rule, bad, msg in (('C18.I1', bad1, 'no complete checkpoint under name/.old/.new'), ('C18.I2', bad2, 'checkpoint name is a truncated file')):
+            if bad:
+                s_ = sorted(bad, key=repr)[0]
+                rep.bad(rule, ckey, where(m2, call), {**facts, 'state': s_.show(), 'history': history(origin, s_)},
+                        f"{msg} in state {s_!r}; reached by: {' ; '.join(history(origin, s_))}")
+            else:
+                rep.ok(rule, ckey, where(m2, call), facts)
+    sites_for_flags = plain_sites
+    combos: Dict[tuple, List[str]] = {}
+    for m2, call in sites_for_flags:
         try:
             for vals, site in flag_values(ctx, fn, flag_names, m2, call):
                 combos.setdefault(tuple(sorted(vals.items())), []).append(site)
@@ -514,27 +684,6 @@ def run(ctx, rep):
                     f"reached by: {' ; '.join(history(origin, s))}")
         else:
             rep.ok('C18.X', ftxt, where(m, fn), {'flags': flags, 'states_checked': len(seen)})
-    # who may write the checkpoint file: an attribute that supplies the writer's path somewhere
-    # (self.checkpoint) must not be opened for writing directly anywhere in the package
-    attrs = set()
-
-    def self_attrs(e):
-        return {n.attr for n in ast.walk(e) if isinstance(n, ast.Attribute)
-                and isinstance(n.value, ast.Name) and n.value.id == 'self'}
-
-    for m2, call in sites:
-        if not call.args:
-            continue
-        attrs |= self_attrs(call.args[0])
-        encl = enclosing_function(call)
-        cls = enclosing_class(call)
-        if isinstance(call.args[0], ast.Name) and encl is not None and cls is not None:
-            for node in ast.walk(cls):
-                if isinstance(node, ast.Call) and isinstance(node.func, ast.Attribute) and node.func.attr == encl.name:
-                    for a in node.args[:1]:
-                        attrs |= self_attrs(a)
-    if not attrs:
-        raise AnalysisError('no path attribute found at the writer call sites')
     for ci in sorted(ctx.classes.classes.values(), key=lambda c: c.qualname):
         used = {n.attr for n in ast.walk(ci.node) if isinstance(n, ast.Attribute) and n.attr in attrs}
         if not used:
